@@ -507,15 +507,23 @@ impl ActorLifecycleGuard {
         }
 
         self.actor.set_status(ActorStatus::Stopping);
+        #[cfg(feature = "verif")]
+        crate::verif::point(crate::verif::pt::CLEANUP_AFTER_STOPPING, crate::verif::id_u64(&self.actor.get_id()), 0);
         self.actor.terminate();
+        #[cfg(feature = "verif")]
+        crate::verif::point(crate::verif::pt::CLEANUP_AFTER_TERMINATE, crate::verif::id_u64(&self.actor.get_id()), 0);
 
         if let Some(event) = event {
             self.actor.notify_supervisor(event);
         }
+        #[cfg(feature = "verif")]
+        crate::verif::point(crate::verif::pt::CLEANUP_AFTER_NOTIFY, crate::verif::id_u64(&self.actor.get_id()), 0);
 
         if let Some(supervisor) = self.actor.try_get_supervisor() {
             self.actor.unlink(supervisor);
         }
+        #[cfg(feature = "verif")]
+        crate::verif::point(crate::verif::pt::CLEANUP_AFTER_UNLINK, crate::verif::id_u64(&self.actor.get_id()), 0);
 
         self.actor.set_status(ActorStatus::Stopped);
         self.armed = false;
@@ -810,6 +818,8 @@ where
             }
         };
 
+        #[cfg(feature = "verif")]
+        crate::verif::point(crate::verif::pt::START_AFTER_PRESTART, crate::verif::id_u64(&id), 0);
         // setup supervision
         if let Some(sup) = &supervisor {
             if !actor_ref.try_link(sup.clone()) {
@@ -818,6 +828,8 @@ where
                 ));
             }
         }
+        #[cfg(feature = "verif")]
+        crate::verif::point(crate::verif::pt::START_AFTER_LINK, crate::verif::id_u64(&id), 0);
         lifecycle.mark_running();
 
         // Generate the ActorRef which will be returned
@@ -908,6 +920,8 @@ where
 
         // set status to stopping
         myself_clone.set_status(ActorStatus::Stopping);
+        #[cfg(feature = "verif")]
+        crate::verif::point(crate::verif::pt::LOOP_AFTER_STOPPING, crate::verif::id_u64(&myself_clone.get_id()), 0);
 
         let (exit_state, exit_reason, was_killed, mut ports) = loop_done??;
 
@@ -949,6 +963,10 @@ where
         ports: &mut ActorPortSet,
     ) -> Result<ActorLoopResult, ActorProcessingErr> {
         match ports.listen_in_priority().await {
+            #[cfg(feature = "verif")]
+            Ok(actor_port_message) if crate::verif::picked(&myself.get_id(), &actor_port_message) => {
+                unreachable!()
+            }
             Ok(actor_port_message) => match actor_port_message {
                 actor_cell::ActorPortMessage::Signal(signal) => Ok(ActorLoopResult::signal(
                     Self::handle_signal(myself.clone(), signal),
